@@ -2,13 +2,14 @@
 (* Exhaustive exploration of Train for small n: every batch size, every epoch count, every permutation.            *)
 EXTENDS Train
 CONSTANTS MaxN, MaxIter
-Configs == {[n |-> n, bs |-> b, maxiter |-> m, hasaff |-> h, affid |-> h, decorated |-> FALSE, whole |-> w, sparse |-> s, mode |-> "fit"] :
-              n \in 1..MaxN, b \in 1..(MaxN + 1), m \in 1..MaxIter, h \in BOOLEAN, w \in BOOLEAN, s \in BOOLEAN}
+Configs == {[n |-> n, d |-> 2, groups |-> gr, bs |-> b, maxiter |-> m, hasaff |-> h, affid |-> h, decorated |-> FALSE, whole |-> w, sparse |-> s, mode |-> "fit"] :
+              n \in 1..MaxN, b \in 1..(MaxN + 1), m \in 1..MaxIter, h \in BOOLEAN, w \in BOOLEAN, s \in BOOLEAN,
+              gr \in {<<>>, <<<<0, 1>>>>}}
 Valid(c) == (c.whole => c.bs = c.n) /\ c.bs <= c.n + 1
 MCBegin == \E c \in Configs : Valid(c) /\ Begin([c EXCEPT !.bs = IF c.bs > c.n THEN c.n ELSE c.bs])
 MCBatch == \E k \in 1..cf.bs : \E idx \in [1..k -> remaining] : Batch(idx)
-Next == MCBegin \/ StartEpoch \/ (ph = "batch" /\ remaining # {} /\ MCBatch) \/ Update \/ Prox \/ Finish
+Next == MCBegin \/ StartEpoch \/ (ph = "batch" /\ remaining # {} /\ MCBatch) \/ Update \/ (\E s \in SUBSET (0..1) : Prox(s)) \/ Finish
 (* every epoch delivers every sample exactly once: when an epoch is over nothing remains, and a sample can only be  *)
 (* delivered while it is in `remaining` *)
-View == <<cf, ph, epoch, remaining, Len(cur), steps>>
+View == <<cf, ph, epoch, remaining, Len(cur), steps, sel>>
 ==============================================================================================================
